@@ -180,7 +180,14 @@ fn gen_mixed_op(rng: &mut SplitMix, t: &Target, probe: &Op, c18: bool) -> Op {
         match r {
             0..=24 => probe.clone(),
             25..=45 => gen_sample_x(rng, &t.spec, t.dim),
-            46..=49 => Op::Burst {
+            46..=47 => match gen_sample_x(rng, &t.spec, t.dim) {
+                Op::SampleX { point, ed, mut st } => {
+                    st.debug = false;
+                    Op::SampleXP { point, ed, st, prec: *rng.pick(&[24u8, 53, 40, 24, 53]) }
+                }
+                o => o,
+            },
+            48..=49 => Op::Burst {
                 seed: rng.next(),
                 n: rng.range(20, 200),
                 ed: workload::gen_edge_data(rng, &t.spec),
